@@ -172,6 +172,17 @@ def make_callables(shape, entered, partials=True):
                     pass
             out.append(('partial', p, 'partial(f, %s) of def f(%s)' % (
                 ', '.join(['<%d fixed>' % npf] + (['%s=<fixed>' % kwf] if kwf else [])), shape.params())))
+    # (new forms are appended at the end: stored witnesses address callables by their index)
+    # a callable instance that carries a __name__ (as functools.update_wrapper gives class-based decorators)
+    named = ns['C']()
+    named.__name__ = 'named_instance'
+    out.append(('instance-named', named, 'instance with an attribute __name__ and __call__(self, %s)' % shape.params()))
+    if partials:
+        try:
+            out.append(('partial-of-instance', functools.partial(inst, Tok('fixed0')), 'partial(obj, <1 fixed>) of an instance with __call__(self, %s)' % shape.params()))
+            out.append(('partial-of-instance-kw', functools.partial(inst, **{FOREIGN: Tok('fixedkw')}), 'partial(obj, z=<fixed>) of an instance with __call__(self, %s)' % shape.params()))
+        except Exception:
+            pass
     return out
 
 
